@@ -104,6 +104,11 @@ route put:2(Meta, Void, Void) deprecated by get
     attrs
         style = "upload"
 route lst(Plain, List(Deeper), Mode2)
+    attrs
+        auth = "team"
+route adm(Void, Void, Void)
+    attrs
+        auth = "team, user"
 '''), ('common.stone', '''namespace common
 import annots
 struct User
@@ -163,10 +168,24 @@ def covering_seeds(limit=400):
     return chosen, False, {k: len(v) for k, v in need.items() if len(v) < target[k]}
 
 
+OPTION_SETS = {
+    # the option set under test (auth-type filtering in the clients) and a different one run earlier in the same process
+    'args': {'python_client': ['-m', 'client', '-c', 'C', '-t', 'pkg', '-w', 'user'],
+             'js_client': ['r.js', '--wrap-response-in', 'Wrapped', '-a', 'auth'],
+             'tsd_client': ['ctpl.d.ts', 'c.d.ts', '-a', 'host'],
+             'tsd_types': ['tpl.d.ts', '--export-namespaces']},
+    'pre_args': {'python_client': ['-m', 'client', '-c', 'C', '-t', 'pkg', '-w', 'team'],
+                 'js_client': ['r.js', '-c', 'OtherClass', '-a', 'style'],
+                 'tsd_client': ['ctpl.d.ts', 'c.d.ts', '--wrap-response-in', 'W'],
+                 'tsd_types': ['tpl.d.ts', '-p', 'prefix']},
+}
+
+
 def run_job(specs, seed, history, whitelist, unrelated, keep_text=False):
     d = explore.fresh_dir('c12')
     try:
-        job = {'specs': specs, 'history': history, 'outdir': d, 'whitelist': whitelist, 'unrelated': unrelated, 'keep_text': keep_text}
+        job = {'specs': specs, 'history': history, 'outdir': d, 'whitelist': whitelist, 'unrelated': unrelated, 'keep_text': keep_text,
+               'args': OPTION_SETS['args'], 'pre_args': OPTION_SETS['pre_args']}
         env = dict(os.environ, PYTHONHASHSEED=str(seed), PYTHONDONTWRITEBYTECODE='1')
         p = subprocess.run([sys.executable, WORKER], input=json.dumps(job), capture_output=True, text=True, env=env, timeout=300)
         if p.returncode != 0:
@@ -255,7 +274,7 @@ def run(tier, seed):
     r.bounds['extra_seed_from_VERIF_SEED'] = extra_seed
     items = []
     for name, specs, wl in RICH:
-        items.append((name, specs, wl, all_seeds, ['fresh', 'after-unrelated', 'twice']))
+        items.append((name, specs, wl, all_seeds, ['fresh', 'after-unrelated', 'after-other-options', 'twice']))
     budget = 60 if tier == 'quick' else 400
     seen = set()
     nm = 0
@@ -271,7 +290,7 @@ def run(tier, seed):
             specs = render.render(s) + [('cfg.stone', CFG)]
             items.append(('%s:%s' % (p.name, '/'.join(tr)), specs, None, all_seeds[:4] if tier == 'quick' else all_seeds, ['fresh'] if tier == 'quick' else ['fresh', 'twice']))
             nm += 1
-    r.bounds.update({'rich_specs': len(RICH), 'machine_models': nm, 'backends': list(impl.BACKEND_RUNS), 'histories': ['fresh', 'after-unrelated', 'twice (two output directories)']})
+    r.bounds.update({'rich_specs': len(RICH), 'machine_models': nm, 'backends': list(impl.BACKEND_RUNS), 'histories': ['fresh', 'after-unrelated', 'after-other-options (same spec, other backend options first)', 'twice (two output directories)'], 'option_sets': OPTION_SETS})
     r.sample({'spec': RICH[0][0], 'files': [p for p, _ in RICH[0][1]], 'whitelist': RICH[0][2], 'seeds': all_seeds})
     r.run_tasks(task, items, budget=1800, chunksize=1)
     r.assumptions = ['object addresses are not controlled; the history dimension perturbs them', 'every run is a separate interpreter with its own PYTHONHASHSEED']
